@@ -39,7 +39,8 @@ class YAMLListFormatter(SequenceFormatter):
         super().__init__('', '', '')
 
     def print_SequenceNode(self, printer: Printer, node: SequenceNode):
-        self.parent.print(printer, node)
+        # print the node itself; an edit associated with it has already been (or is being) printed by the caller
+        self.parent.print(printer, node, with_edits=False)
 
     def print_ListNode(self, printer: Printer, *args, **kwargs):
         printer.newline()
@@ -97,7 +98,8 @@ class YAMLDictFormatter(SequenceFormatter):
         super().print_SequenceNode(*args, **kwargs)
 
     def print_SequenceNode(self, *args, **kwargs):
-        self.parent.print(*args, **kwargs)
+        # print the node itself; an edit associated with it has already been (or is being) printed by the caller
+        self.parent.print(*args, with_edits=False, **kwargs)
 
     def item_newline(self, printer: Printer, is_first: bool = False, is_last: bool = False):
         if not is_first and not is_last:
